@@ -11,6 +11,8 @@
 3. The Go harness runs every scenario on the real netmc writer/reader pair over an in-memory
    connection with that chunking and records the frames as an independent parser sees them
    (own VarInt, own CFB8 over crypto/aes, compress/zlib) and the payloads delivered.
+   One more connection carries 45 000 small compressed + encrypted packets through a single
+   writer/reader pair (long-lived state: buffer pools, zlib and cipher re-use).
 4. TLC validates the recorded connections (Framing_Trace.tla).
 """
 import json
@@ -57,7 +59,9 @@ def run(ctx):
         json.dump(scens, fh)
     ctx.log("%d scenarios drawn by TLC" % len(scens))
 
-    ctx.harness("./c01", "TestScenarios", timeout=1500)
+    # plus one long-lived connection (45 000 small compressed, encrypted packets through one writer/reader
+    # pair): state that builds up over a connection's life (buffer pools, zlib/cipher re-use)
+    ctx.harness("./c01", "TestScenarios", timeout=1500, env={"VERIF_LONG": ctx.pick(45000, 120000)})
     st = json.load(open(ctx.path("stats.json")))
     recs = vlib.read_ndjson(ctx.path("trace.ndjson"))
     # one pass in diagnose mode: a forbidden line is printed as <<"BAD", line>>, the rest of that
